@@ -43,8 +43,18 @@ CHECKS = {
    text="Seeded encode / decode / quoted-encode / add-quad histories on two real databases with clashing identifiers, bijection invariants after every step, then SparqlDatabase::union compared with the model union (lexical quads, graph identities, quoted terms, probability seeds). Weak fit: hash seed is the only nondeterminism.",
    note="Terms are generated so that Kolibrie's storage convention cannot confuse kinds (absolute IRIs, plain literals).",
    technique="operation-history simulation with a bijection reference model; hash-seed perturbation only"),
+
+ "C03": dict(engine="dbsim-update", level="exploration", ref="6.2",
+   text="Seeded update histories (six forms over default/named graphs, template blank nodes, GRAPH ?g templates, self-referential and illegal-triple templates) with rejected/malformed operations, direct API mutations, SELECTs (stale statistics) and index rebuilds interleaved, against a reference SPARQL-Update model; whole dataset + catalog compared after every step modulo a bijection on fresh blank nodes, reported counts compared with quads actually changed, rejected operations must leave ids unchanged.",
+   note="Reference model written from SPARQL 1.1 Update on lexical terms; terms are kind-unambiguous; the process-global blank-node counter is not replaced (label-insensitive oracle, second interleaved session).",
+   technique="deterministic simulation: operation histories with injected rejected operations and stale statistics, reference-model refinement after every step"),
+ "C17": dict(engine="dbsim-client", level="exploration", ref="6.13",
+   text="A hostile client inside a live session: after a generated update history has built a state, valid SELECTs, every update form, legacy aliases and seeded mutations of them (multi-byte characters at token boundaries, truncation, unbalanced quotes/braces, NULs, long tokens) are sent through six entry points; after every request the stored quad ids and catalog must be unchanged on query paths, update syntax refused there, failed updates leave the dataset unchanged, and no entry point may unwind (each request runs under catch_unwind; aborts are caught by the process supervisor).",
+   note="Seeded request mutation inside a stateful session; extension statements (ML/RULE/REGISTER) are not in the corpus.",
+   technique="deterministic simulation: hostile-client request injection into a stateful session with whole-state invariants after every request"),
 }
 ENGINES = [
+  {"name": "dbsim-update", "path": "sim/ksim-db/src/update.rs", "serves_properties": ["C03", "C17"], "kind_free_text": "update-history simulator with reference Update model; hostile-client session simulator"},
   {"name": "dbsim-store", "path": "sim/ksim-db/src/store.rs", "serves_properties": ["C04"], "kind_free_text": "store-API history simulator"},
   {"name": "dbsim-dict", "path": "sim/ksim-db/src/dict.rs", "serves_properties": ["C15"], "kind_free_text": "dictionary / union history simulator"},
   {"name": "hybsim", "path": "sim/ksim-core/src/hybsim.rs", "serves_properties": ["C08"], "kind_free_text": "lineage/controller simulator under a scripted HybridClock"},
